@@ -51,7 +51,7 @@ SDS_KINDS = ['arg', 'argTmp', 'shell', 'defStr', 'defPath', 'defCd', 'file', 'fi
              'cleanup', 'equals', 'matches', 'exists', 'dirContents', 'stdoutFrom', 'mkDir', 'copy', 'cdAct']
 SYM_KINDS = ['strArg', 'listArg', 'listDef', 'shellStr', 'envStr', 'fileStr', 'progSym', 'timeoutInt', 'cleanupArg', 'exitCode',
              'numLines', 'lineNum', 'lineNums', 'equalsStr', 'matchesRx', 'pathExists', 'textMatcher', 'textTransformer',
-             'intMatcher', 'lineMatcher']
+             'intMatcher', 'lineMatcher', 'textMatcherAnd', 'intMatcherOr', 'lineMatcherAnd', 'textTransformerSeq']
 # (finding D13, fixed in /repo: the range of `filter -line-nums` in an instruction of a suite kept the value of the
 # first case of the run - the deviation LineNumsRangeCached of the specification, which TLC must refute in every run)
 # deviation -> (the invariant TLC must refute, the family that shows it)
@@ -209,6 +209,11 @@ SYM_ASSERT = {
     'textTransformer': ['contents -rel-tmp own.txt : -transformed-by V_TT equals X'],
     'intMatcher': ['exit-code V_IM'],
     'lineMatcher': ['stdout -transformed-by filter V_LM num-lines == 1'],
+    # the symbol of the case as an operand of a combination written in the suite
+    'textMatcherAnd': ['contents -rel-tmp own.txt : V_TM && ! is-empty'],
+    'intMatcherOr': ['exit-code ( V_IM || == 99 )'],
+    'lineMatcherAnd': ['stdout -transformed-by filter ( V_LM && line-num <= 99 ) num-lines == 1'],
+    'textTransformerSeq': ['contents -rel-tmp own.txt : -transformed-by ( identity | V_TT ) equals X'],
 }
 
 SDS_ASSERT = {
